@@ -77,6 +77,13 @@ where
         if !self.visit_index(&index) {
             self.process_unvisited_index(index, handler)
         } else {
+            // an edge that was the origin of the search is met again through its
+            // node: pass on to the node's remaining edges without following it
+            if index.index.is_edge() {
+                self.algorithm
+                    .expand(index, self.graph, self.storage, false);
+            }
+
             Ok(true)
         }
     }
